@@ -44,6 +44,7 @@ SLOTS = {
     10: dict(ins=[(9, 0)], outs=[(2, 0)], fam=0),
     11: dict(ins=[(CB, 5), (CB, 6)], outs=[(1, 100), (3, 29)], fam=0),
     12: dict(ins=[(9, 3), (9, 4)], outs=[(1, 1)], fam=0),
+    13: dict(ins=[(CB, 7), (1, 1)], outs=[(3, 84)], fam=0),     # one confirmed input, one from tx 1
 }
 MINER = 4
 
